@@ -62,6 +62,11 @@ def expected_values(params, v):
                     exp[nm] = [expected_values(sp, it) if isinstance(it, dict) else it for it in v[nm]]
                 else:
                     exp[nm] = v[nm]
+                    d = kd["dop"]
+                    if d["k"] == "simple" and d["dct"].get("mask") is not None and isinstance(v[nm], int) and \
+                            not isinstance(v[nm], bool) and v[nm] >= 0:
+                        # a BIT-MASK drops the masked bits, the others must come back
+                        exp[nm] = v[nm] & d["dct"]["mask"]
             elif kd.get("dflt") is not None:
                 exp[nm] = kd["dflt"]
         elif k in ("coded", "physconst"):
@@ -117,9 +122,11 @@ def roundtrip_exempt(params, v):
 def _dop_exempt(d, v):
     k = d["k"]
     if k == "simple":
-        if d["dct"].get("mask") is not None:
-            return "bit mask"
         c = d["compu"]
+        if d["dct"].get("mask") is not None and not (c["k"] == "ident" and isinstance(v, int) and not isinstance(v, bool)
+                                                      and v >= 0 and d["dct"]["bt"] == cc.BUINT and d["dct"].get("en") is None):
+            # (masked unsigned integers are predicted by expected_values; other masked types are not)
+            return "bit mask"
         if c["k"] == "linear" and (c["num"] == 0 or abs(c["num"]) < abs(c["den"])):
             return "non-injective compu method"
         if c["k"] == "linear" and isinstance(v, int) and not isinstance(v, bool):
